@@ -76,8 +76,8 @@ type SoftUser struct {
 	DeletedAt gorm.DeletedAt
 }
 
-var AllModels = []interface{}{&Audit{}, &Company{}, &Profile{}, &Toy{}, &Pet{}, &Lang{}, &User{}, &SoftUser{}, &SoftPet{}, &Memo{}, &Draft{}}
-var AllTables = []string{"audits", "companies", "profiles", "toys", "pets", "langs", "users", "user_langs", "soft_users", "soft_pets", "memos", "drafts"}
+var AllModels = []interface{}{&Audit{}, &Company{}, &Profile{}, &Toy{}, &Pet{}, &Lang{}, &User{}, &SoftUser{}, &SoftPet{}, &Memo{}, &Draft{}, &Stamp{}}
+var AllTables = []string{"audits", "companies", "profiles", "toys", "pets", "langs", "users", "user_langs", "soft_users", "soft_pets", "memos", "drafts", "stamps"}
 
 // Memo implements only the After* hooks, Draft only the Before* hooks (a hook must be detected on
 // its own, not through its counterpart).
@@ -91,6 +91,16 @@ type Draft struct {
 	Name string
 	V    int64
 }
+
+// Stamp implements its save hooks on the VALUE receiver (and has no create hooks).
+type Stamp struct {
+	ID   int64
+	Name string
+	V    int64
+}
+
+func (s Stamp) BeforeSave(tx *gorm.DB) error { return hook(tx, "BeforeSave", "Stamp", s.Name) }
+func (s Stamp) AfterSave(tx *gorm.DB) error  { return hook(tx, "AfterSave", "Stamp", s.Name) }
 
 func (m *Memo) AfterCreate(tx *gorm.DB) error { return hook(tx, "AfterCreate", "Memo", m.Name) }
 func (m *Memo) AfterUpdate(tx *gorm.DB) error { return hook(tx, "AfterUpdate", "Memo", m.Name) }
